@@ -54,6 +54,8 @@ ASSUMPTIONS = [
     'set base persists over ERASE; whether the implicit base 0 survives the ERASE of the last array '
     'is left open (both outcomes accepted)',
     'DIM with a bound below the OPTION BASE must fail (any of error 9 / 5) and create nothing',
+    'first use of a 4-dimensional array whose 0..10 / 1..10 elements need more than 50000 bytes may '
+    'answer Out of memory (the data segment is 64K)',
     'internal seam (history leg, state key only): Arrays._dims/_buffers/_base/_base_set_by_dim, '
     'Scalars._vars',
 ]
@@ -312,11 +314,28 @@ def check_firstuse(part, case):
         return
     target = {'%': b'X%', '!': b'X!', '#': b'X#', '$': b'X$'}[t]
     v = unique_value(t, 7)
-    if how == 'read':
-        ok = run_ok(part, s, b'%s=%s' % (target, elem(name, sub)), 'firstuse/in-range-refused', case)
+    stmt = (b'%s=%s' % (target, elem(name, sub))) if how == 'read' else (
+        b'%s=%s' % (elem(name, sub), lit(v)))
+    nbytes = (11 - eff) ** nd * {'%': 2, '!': 4, '#': 8, '$': 3}[t]
+    if nbytes > 50000:
+        # a 0..10 array of this type and rank does not (or only just) fit the 64K data segment:
+        # Out of memory is then the expected answer; only a successful first use is followed up
+        r = H.run(s, stmt)
+        part.n += 1
+        if r.exc is not None:
+            part.violation('firstuse/host-exception/%s' % H.exc_key(r.exc), '%r raised %r' % (stmt, r.exc), case)
+            return
+        if r.err is not None:
+            if r.err != 7:
+                part.violation('firstuse/too-big/error-%s' % r.err,
+                               '%r gave error %s, expected success or Out of memory' % (stmt, r.err), case)
+            part.classes.add(cls + '/out-of-memory')
+            part.outcome('firstuse-out-of-memory')
+            return
+        ok = True
     else:
-        ok = run_ok(part, s, b'%s=%s' % (elem(name, sub), lit(v)), 'firstuse/in-range-refused', case)
-    part.n += 1
+        ok = run_ok(part, s, stmt, 'firstuse/in-range-refused', case)
+        part.n += 1
     if not ok:
         return
     dims = (10,) * nd
